@@ -1,0 +1,12 @@
+//go:build verif
+// +build verif
+
+package eth
+
+// Verification hook (build tag "verif" only): synthetic Ethash headers cannot be mined in a
+// simulation (each seal needs the epoch cache and >= 131072 hashimoto evaluations), so the
+// simulator may switch the proof-of-work seal check off. Every other header rule stays on.
+
+var SkipSealHook func() bool
+
+func verifSkipSeal() bool { return SkipSealHook != nil && SkipSealHook() }
